@@ -2,7 +2,7 @@
 from tesim import acct, gen_acct
 
 PROP = "C13"
-PLAN = {"quick": 4000, "thorough": 400000}
+PLAN = {"quick": 8000, "thorough": 400000}
 TIMEOUT = 20
 CHUNK = 250
 RULE = ("seeded swarm of account histories into which quote faults are injected at random points (bid-only, ask-only, "
